@@ -33,7 +33,8 @@ func runC13(c *Ctx) {
 	}
 	closes := map[string][]site{}
 	sends := map[string][]site{}
-	for _, fn := range c.RepoFuncs("service") {
+	svcFuncs := c.RepoFuncs("service")
+	for _, fn := range svcFuncs {
 		for _, b := range fn.Blocks {
 			for _, ins := range b.Instrs {
 				if call, ok := isBuiltinCall(ins, "close"); ok {
@@ -41,18 +42,23 @@ func runC13(c *Ctx) {
 						closes[f] = append(closes[f], site{fn, ins, rolesOf(ri, fn)})
 					}
 				}
+				// the channel of a send is resolved through parameters and closure variables to the fields it was loaded from
 				if s, ok := ins.(*ssa.Send); ok {
-					if owner, f, ok := fieldLoad(s.Chan); ok && (owner == "connection" || owner == "session") {
-						sends[f] = append(sends[f], site{fn, ins, rolesOf(ri, fn)})
+					for _, of := range c.chanFieldsOf(s.Chan, svcFuncs) {
+						if of[0] == "connection" || of[0] == "session" {
+							sends[of[1]] = append(sends[of[1]], site{fn, ins, rolesOf(ri, fn)})
+						}
 					}
 				}
 				if sel, ok := ins.(*ssa.Select); ok {
 					for _, stt := range sel.States {
 						if stt.Dir == types.SendOnly {
-							if owner, f, ok := fieldLoad(stt.Chan); ok && (owner == "connection" || owner == "session") {
-								// a send inside a select that also waits on the stop channel cannot block for ever,
-								// but can still hit a closed channel: treated like a plain send
-								sends[f] = append(sends[f], site{fn, ins, rolesOf(ri, fn)})
+							for _, of := range c.chanFieldsOf(stt.Chan, svcFuncs) {
+								if of[0] == "connection" || of[0] == "session" {
+									// a send inside a select that also waits on the stop channel cannot block for ever,
+									// but can still hit a closed channel: treated like a plain send
+									sends[of[1]] = append(sends[of[1]], site{fn, ins, rolesOf(ri, fn)})
+								}
 							}
 						}
 					}
@@ -368,7 +374,6 @@ func (c *Ctx) timeoutRule() {
 		R.Add("E5.timeout", "connection.onActiveEvent / a timeout goroutine is started for every duration >= 0", c.P.RelPos(onActive.Pos()), st, d)
 	}
 }
-
 
 func sortedKeysOf[T any](m map[string]T) []string {
 	out := make([]string, 0, len(m))
